@@ -60,13 +60,15 @@ def s_converge(F, res):
         else:
             res.add([ok("S-CONVERGE", key, where(f, line), detail)])
     if not any(k == "converged" for k, _, _ in exits):
-        res.add([finding("S-CONVERGE", "tx3_resolver::resolve_tx|no convergence exit", w, "the loop has no exit on eval_pass() == None")])
+        res.add([finding("S-CONVERGE", "tx3_resolver::resolve_tx|no convergence exit", w, "the loop has no exit on a confirmed fixed point (the pass function answering None, or this round's evaluation / fee equal to what the round was computed with)")])
     good, reason, g = e8_state.eval_pass_first_round_is_some(F)
     key = "%s|Ok(None) only after comparing with the previous evaluation" % e8_state.resolver_roles(F)[1]
     # Ok(None) must also be on the equal edge of `eval != *last_eval`
     cmpcalls = [bi for b_ in [g] + [F.fns[st["rv"]["closure"]] for _, _, st in mir.stmts(g) if st["rv"]["k"] == "agg" and st["rv"].get("closure") in F.fns]
                 for bi, t in mir.calls(b_) if (t.get("callee") or "") in ("std::cmp::PartialEq::ne", "std::cmp::PartialEq::eq") and "CompiledTx" in (t.get("resolved") or "") + " ".join(t.get("gargs") or [])]
-    if good and cmpcalls:
+    if good and e8_state.loop_form(F) == "value":
+        res.add([ok("S-CONVERGE", key, where(g), reason)])
+    elif good and cmpcalls:
         res.add([ok("S-CONVERGE", key, where(g), reason + "; the new evaluation is compared with the previous one")])
     elif good:
         res.add([finding("S-CONVERGE", key, where(g), "eval_pass no longer compares the new evaluation with the previous one before reporting convergence")])
@@ -219,7 +221,30 @@ def s_feeflow(F, res):
                 pl = mir.op_place(rv.get("op")) if rv["k"] in ("use", "cast") else (rv.get("pl") if rv["k"] == "ref" else None)
                 if pl is not None and any(p[0] == "f" and p[1] == "fee" and p[2] == "tx3_tir::compile::CompiledTx" for p in pl["p"]):
                     reads_fee = True
-        if roots_ok and reads_fee:
+        if e8_state.loop_form(F) == "value":
+            # the fee comes in as a parameter: every call of the pass function in the loop function hands over 0 or the fee of
+            # an evaluation the pass function returned
+            lf = e8_state.loop_body(F)
+            ldu = mir.DefUse(lf)
+            is_param = bool(o) and all(x.kind == "arg" and x.local == 1 and x.proj for x in o)
+            fed_ok = True
+            for cb, ct in [(cb, ct) for cb, ct in mir.calls(lf) if call_matches(ct, pfn)]:
+                ints = [a for a in ct["args"] if (mir.op_const(a) or {}).get("ty") == "u64" or (mir.op_place(a) is not None and lf["locals"][mir.op_place(a)["l"]] == "u64")]
+                if len(ints) != 1:
+                    fed_ok = False
+                    continue
+                for x in mir.provenance(lf, ldu, ints[0], transparent_extra=e8_state.AWAIT):
+                    if x.kind == "const" and x.const.get("int") == 0:
+                        continue
+                    if x.kind == "call" and (x.callee or "").startswith(pfn) and ".fee" in x.proj:
+                        continue
+                    fed_ok = False
+            if is_param and fed_ok:
+                why.append("apply_fees(attempt, fees) with fees = 0 | <evaluation returned by the pass function>.fee at every call")
+            else:
+                good = False
+                why.append("the fee parameter of the pass function is not 0 / the fee of a returned evaluation at every call, or apply_fees is not given that parameter (%r)" % o)
+        elif roots_ok and reads_fee:
             why.append("apply_fees(attempt, last_eval.map(|e| e.fee).unwrap_or(0))")
         else:
             good = False
@@ -246,6 +271,9 @@ def s_feeflow(F, res):
     for bi, si, s in mir.stmts(g):
         rv = s["rv"]
         if rv["k"] == "agg" and rv.get("variant") == "Some" and "CompiledTx" in g["locals"][s["lhs"]["l"]]:
+            somes.append((bi, s))
+        elif rv["k"] == "agg" and rv.get("variant") == "Ok" and s["lhs"]["l"] == 0 and not s["lhs"]["p"] and g["locals"][0].startswith("std::result::Result<%s," % CT):
+            # value form: the pass function returns the evaluation itself
             somes.append((bi, s))
     for bi, t in mir.calls(g):
         if (t.get("callee") or "").endswith("<impl bool>::then_some") and len(t["args"]) > 1 and "CompiledTx" in g["locals"][t["dest"]["l"]]:
